@@ -13,6 +13,7 @@ func factsMore(x *extractor) {
 	x.factsWire()
 	x.factsFramer()
 	x.factsForward()
+	x.factsFirewall()
 }
 
 const netceptorGo = "pkg/netceptor/netceptor.go"
@@ -360,4 +361,152 @@ func (x *extractor) factsForward() {
 	x.set("fwd_notice_guard", guard)
 	x.set("fwd_order", strings.Join(ord, ","))
 	x.set("fwd_sendmessage_budget", budget)
+}
+
+// ---------------------------------------------------------------- C12: firewall
+
+func (x *extractor) factsFirewall() {
+	const fr = "pkg/netceptor/firewall_rules.go"
+	propagated, minlen, wrap := false, false, "unknown"
+	if fd := x.fn(fr, "", "buildComp"); fd != nil {
+		// errors of regexCompare / stringCompare must not be assigned to the blank identifier
+		blank, calls := false, 0
+		ast.Inspect(fd, func(n ast.Node) bool {
+			switch v := n.(type) {
+			case *ast.AssignStmt:
+				for _, r := range v.Rhs {
+					if c, ok := r.(*ast.CallExpr); ok && (x.str(c.Fun) == "regexCompare" || x.str(c.Fun) == "stringCompare") {
+						calls++
+						if len(v.Lhs) == 2 && x.str(v.Lhs[1]) == "_" {
+							blank = true
+						}
+					}
+				}
+			case *ast.ReturnStmt:
+				for _, r := range v.Results {
+					if c, ok := r.(*ast.CallExpr); ok && (x.str(c.Fun) == "regexCompare" || x.str(c.Fun) == "stringCompare") {
+						calls++
+					}
+				}
+			}
+			return true
+		})
+		returnsErr := false
+		if fd.Type.Results != nil {
+			for _, f := range fd.Type.Results.List {
+				if x.str(f.Type) == "error" {
+					returnsErr = true
+				}
+			}
+		}
+		propagated = calls >= 2 && !blank && returnsErr
+	}
+	// … and ParseFirewallRule must look at the error of BuildComps
+	if propagated {
+		propagated = false
+		if fd := x.fn(fr, "FirewallRuleData", "ParseFirewallRule"); fd != nil {
+			ast.Inspect(fd, func(n ast.Node) bool {
+				if as, ok := n.(*ast.AssignStmt); ok && len(as.Rhs) == 1 && strings.HasSuffix(x.str(as.Rhs[0]), "BuildComps()") &&
+					len(as.Lhs) == 2 && x.str(as.Lhs[1]) == "err" {
+					propagated = true
+				}
+				return true
+			})
+		}
+		if fd := x.fn(fr, "FirewallRule", "BuildComps"); fd != nil {
+			if strings.Contains(x.str(fd.Body), ", _ := buildComp") || strings.Contains(x.str(fd.Body), ", _ = buildComp") {
+				propagated = false
+			}
+		}
+	}
+	if fd := x.fn(fr, "", "regexCompare"); fd != nil {
+		ast.Inspect(fd, func(n ast.Node) bool {
+			switch v := n.(type) {
+			case *ast.CallExpr:
+				if x.str(v.Fun) == "fmt.Sprintf" && len(v.Args) == 2 {
+					if bl, ok := v.Args[0].(*ast.BasicLit); ok {
+						wrap = strings.Trim(bl.Value, "\"`")
+						if strings.ReplaceAll(x.str(v.Args[1]), " ", "") != "value[1:len(value)-1]" {
+							wrap = "unknown:" + x.str(v.Args[1])
+						}
+					}
+				}
+			case *ast.IfStmt:
+				if strings.Contains(x.str(v.Cond), "len(value) < 2") && strings.Contains(x.str(v.Body), "return nil,") {
+					minlen = true
+				}
+			}
+			return true
+		})
+	}
+	x.set("fw_errors_propagated", propagated)
+	x.set("fw_regex_minlen", minlen)
+	x.set("fw_regex_wrap", wrap)
+	// the rule loop in handleMessageData
+	loop, before := "unknown", false
+	if fd := x.fn(netceptorGo, "Netceptor", "handleMessageData"); fd != nil {
+		var loopPos, destPos token.Pos
+		initAccept := false
+		ast.Inspect(fd, func(n ast.Node) bool {
+			switch v := n.(type) {
+			case *ast.AssignStmt:
+				if x.str(v) == "result := FirewallResultAccept" {
+					initAccept = true
+				}
+			case *ast.RangeStmt:
+				if x.str(v.X) == "s.firewallRules" {
+					loopPos = v.Pos()
+					b := x.str(v.Body)
+					if strings.Contains(b, "result = rule(md)") && strings.Contains(b, "if result != FirewallResultContinue { break }") {
+						loop = "first-non-continue-breaks"
+					}
+				}
+			case *ast.IfStmt:
+				if destPos == 0 && x.str(v.Cond) == "md.ToNode == s.nodeID" {
+					destPos = v.Pos()
+				}
+			}
+			return true
+		})
+		if !initAccept {
+			loop = "unknown:init"
+		}
+		before = loopPos != 0 && destPos != 0 && loopPos < destPos
+		// switch result: Drop returns nil; Reject sends ProblemRejected unless FromService is "unreach"
+		sw := ""
+		ast.Inspect(fd, func(n ast.Node) bool {
+			if v, ok := n.(*ast.SwitchStmt); ok && x.str(v.Tag) == "result" {
+				for _, c := range v.Body.List {
+					cc := c.(*ast.CaseClause)
+					body := ""
+					for _, st := range cc.Body {
+						body += x.str(st) + ";"
+					}
+					lbl := ""
+					if len(cc.List) > 0 {
+						lbl = x.str(cc.List[0])
+					}
+					switch lbl {
+					case "FirewallResultAccept":
+						if body == "" {
+							sw += "accept:continue;"
+						}
+					case "FirewallResultDrop":
+						if body == "return nil;" {
+							sw += "drop:return;"
+						}
+					case "FirewallResultReject":
+						if strings.Contains(body, `if md.FromService != "unreach"`) && strings.Contains(body, "Problem: ProblemRejected") &&
+							strings.HasSuffix(body, "return nil;") {
+							sw += "reject:notice-unless-unreach,return;"
+						}
+					}
+				}
+			}
+			return true
+		})
+		loop += "|" + sw
+	}
+	x.set("fw_loop", loop)
+	x.set("fw_before_dispatch", before)
 }
